@@ -23,6 +23,7 @@ pub enum BlockOn {
     Thread(usize),
     Sleep,
     Settle,
+    AllDone,
 }
 
 impl From<simrt::Obj> for BlockOn {
@@ -35,6 +36,7 @@ impl From<simrt::Obj> for BlockOn {
             simrt::Obj::Thread(t) => BlockOn::Thread(t),
             simrt::Obj::Sleep => BlockOn::Sleep,
             simrt::Obj::Settle => BlockOn::Settle,
+            simrt::Obj::AllDone => BlockOn::AllDone,
         }
     }
 }
@@ -127,6 +129,8 @@ pub enum K {
     Block { on: BlockOn },
     Timer { on: BlockOn, deadline_ns: u64 },
     Fault { kind: String },
+    /// the scenario's main thread found internal threads that can never finish
+    Leaked { threads: Vec<(usize, BlockOn)> },
 }
 
 #[derive(Clone, Debug, PartialEq, Eq, Hash)]
@@ -660,7 +664,8 @@ impl World {
                 let Some(s) = self.store(*store) else { return Res::Skipped };
                 let a = Act { id: *act };
                 let r = match via {
-                    Via::Impl | Via::Thunk => s.dispatch(a),
+                    // NB: `s.dispatch(a)` on the Arc would resolve to Dispatcher::dispatch
+                    Via::Impl | Via::Thunk => StoreImpl::dispatch(&*s, a),
                     Via::Trait => {
                         let d: &dyn Store<St, Act> = &*s;
                         d.dispatch(a)
